@@ -195,4 +195,7 @@ def unlines (ls : List Str) : Str := ls.foldr (fun l acc => l ++ '\n' :: acc) []
 def asStr (o : ShowOpts) (root : Obj) (prefix_ : Str := []) : R Str :=
   (showObj o root [] prefix_).map unlines
 
+/-- the root scope `parse` returns for a list of top-level objects -/
+def rootOf (objs : List Obj) : Obj := .scope { name := [], id := some 0 } objs
+
 end Phil
